@@ -19,13 +19,15 @@ def optDir (a : Json) (k : String) : Except String (Option PPath) :=
   | none => .ok none
   | some v => do return some (parse (← v.getStr?))
 
-/-- one step of a session: `{"do": "put" | "move" | "save" | "load" | anything else, …}` -/
+/-- one step of a session: `{"do": "put" | "move" | "save" | "load" | "copy" | anything else, …}`
+    (the harness names the cells: files as they are, in-memory documents with a prefix) -/
 def sessionStep (st : Json) : Except String Session.Step := do
   match ← fldStr st "do" with
   | "put" => return .put (← fldStr st "obj") (← fromJson? (← fld st "collection"))
   | "move" => return .move (← fldStr st "obj") (parse (← fldStr st "src")) (parse (← fldStr st "dst"))
   | "save" => return .save (← fldStr st "obj") (← fldStr st "file") (← optDir st "audio_dir")
   | "load" => return .load (← fldStr st "file") (← optDir st "audio_dir") (← fldStr st "into")
+  | "copy" => return .copy (← fldStr st "from") (← fldStr st "to")
   | _ => return .skip
 
 def sessionOutJ : Session.Out → Json
